@@ -82,11 +82,12 @@ def run(chk):
             chk.violation("colour string %r read as rgba%s, Qt reads it as rgba%s" % (s, tuple(obs), tuple(exp)), {"string": s, "expected": exp, "observed": obs})
     # ---- end to end: the channels in the .ui
     sample = r.sample([s for s in strings if cases[s][0] >= 0], 150 if quick else 1500) + [x for x in ["#fff", "#0abc", "#0f80", "transparent", "#12345678"] if x in cases] + [k for k in cases if k.lower() == "lightgoldenrodyellow"]
-    bad = r.sample([s for s in strings if cases[s][0] < 0 and "\n" not in s and '"' not in s], 12)
+    # every string of the rejected family, and valid colours padded with white space, at each position a colour string can stand
+    padded = [" #fff", "#fff ", "\t#80123abc", "#f48c\n", "  #000  ", " red ", "red\t", "\nblue", "#123abc ", " transparent"]
+    bad = sorted(set([s for s in strings if cases[s][0] < 0] if len([s for s in strings if cases[s][0] < 0]) < 400 else r.sample([s for s in strings if cases[s][0] < 0], 400)) | set(REJECT) | set(padded))
     q = "import qmluic.QtWidgets\nQWidget {\n"
     for i, s in enumerate(sample + bad):
-        prop = "currentColor" if i % 2 else "backgroundBrush"
-        cls = "QColorDialog" if i % 2 else "QGraphicsView"
+        prop, cls = [("backgroundBrush", "QGraphicsView"), ("currentColor", "QColorDialog"), ("palette.window", "QLabel")][i % 3 if i >= len(sample) else i % 2]
         q += "  %s { id: c%d; %s: %s }\n" % (cls, i, prop, json.dumps(s))
     q += "}\n"
     run_ = translate([{"id": "e2e", "src": q, "type_name": "Doc", "modes": ["generate"]}], metatypes=[QT5_METATYPES], procs=1)["e2e"]["generate"]
